@@ -21,6 +21,10 @@ def vname(sw) -> str:
     return sw.get("vname") or "t"
 
 
+def swept_param(proc: str) -> str:
+    return "factor" if "Multiply" in proc else "value"
+
+
 def scalar(v: int, sp: int) -> str:
     return SPELL[sp].format(float(v))
 
@@ -41,7 +45,7 @@ def meaning_node(n) -> Dict[str, Any]:
         variables = {vname(sw): {"values": [int(x) if sw.get("ints") else float(x) for x in sw["vals"]]}}
         if sw.get("ctx2"):
             variables.update({"u": {"from_context": "ku"}, "w": {"from_context": "kw"}})
-        out["derive"] = {"parameter_sweep": {"parameters": {"value": expr_text(sw["expr"], vname(sw))},
+        out["derive"] = {"parameter_sweep": {"parameters": {swept_param(n["proc"]): expr_text(sw["expr"], vname(sw))},
                                              "variables": variables,
                                              "mode": sw["mode"], "broadcast": bool(sw["bc"]), "collection": sw["coll"]}}
     return out
@@ -50,7 +54,12 @@ def meaning_node(n) -> Dict[str, Any]:
 def render(cfg: List[Dict[str, Any]]) -> str:
     """Configuration text with the author's freedoms (key order, spelling, flow/block, quoting) applied."""
     lines = ["extensions: [semantiva-examples, verif_ext]", "pipeline:", "  nodes:"]
-    for n in cfg:
+    anchors = {int(n["alias"]) for n in cfg if n.get("alias")}
+    for idx, n in enumerate(cfg, 1):
+        if n.get("alias"):
+            lines.append(f"    - *n{int(n['alias'])}")
+            continue
+        node_start = len(lines)
         proc = f'"{n["proc"]}"' if n["quoted"] else n["proc"]
         first = f"    - processor: {proc}"
         body: List[str] = []
@@ -80,7 +89,7 @@ def render(cfg: List[Dict[str, Any]]) -> str:
                     extra.reverse()
                 vtxt = ", ".join(([extra[0], vtxt, extra[1]]) if sw.get("vorder") else ([vtxt] + extra))
             body += ["      derive:", "        parameter_sweep:",
-                     f"          parameters: {{value: \"{expr_text(sw['expr'], vname(sw))}\"}}",
+                     f"          parameters: {{{swept_param(n['proc'])}: \"{expr_text(sw['expr'], vname(sw))}\"}}",
                      f"          variables: {{{vtxt}}}",
                      f"          mode: {sw['mode']}", f"          broadcast: {'true' if sw['bc'] else 'false'}",
                      f"          collection: {sw['coll']}"]
@@ -89,6 +98,8 @@ def render(cfg: List[Dict[str, Any]]) -> str:
             lines += ["    - " + body[0].strip()] + body[1:] + [f"      processor: {proc}"]
         else:
             lines += [first] + body
+        if idx in anchors:      # `- &nK` on its own line, the mapping follows indented
+            lines[node_start] = f"    - &n{idx}\n      " + lines[node_start][6:]
     text = "\n".join(lines) + "\n"
     loaded = yaml.safe_load(text)
     want = [meaning_node(n) for n in cfg]
